@@ -26,6 +26,10 @@ def _desc(t):
             return None
         return dict(kind='seq', elem=d, **({'as': t.native_as} if getattr(
             t, 'native_as', None) else {}))
+    if isinstance(t, S.TIter):
+        d = _desc(t.elem)
+        return None if d is None else dict(kind='seq', elem=d, **{'as':
+                                                                   'iter'})
     if isinstance(t, TOpt):
         d = _desc(t.inner)
         return None if d is None else dict(kind='opt', inner=d)
@@ -89,17 +93,23 @@ def contract_unit(c, tier='quick', probe=False, world_setup=None):
                       'concrete length' in (o.get('detail') or ''))
                      and o['status'] == 'unknown' for o in out)
         if shaky and (c.loops or no_inv) and not probe and not definite:
-            rbudget = Budget(branch_ms=1000, prove_ms=3000, max_paths=80)
+            rbudget = Budget(branch_ms=1000, prove_ms=3000, max_paths=80,
+                             wall_s=40)
             for k in (0, 1, 2, 3):
                 c3 = copy.copy(c)
                 c3.loops = []
                 S.FIXED_SEQ_LEN[0] = k
                 try:
-                    rep3 = verify_function(_mk(ctx, world_setup), c3, budget)
+                    rep3 = verify_function(_mk(ctx, world_setup), c3,
+                                           rbudget)
                 finally:
                     S.FIXED_SEQ_LEN[0] = None
+                # only DEFINITE counterexamples count: a model of a finite
+                # instantiation of recursive axioms (`candidate`) refutes
+                # nothing
                 bad = [o for o in rep3.obligations if o.status == 'failed'
-                       and o.kind in ('post', 'raises')]
+                       and o.kind in ('post', 'raises')
+                       and 'ground-inst' not in (o.backend or '')]
                 for o in bad:
                     out.append(core.ob(
                         '%s:refuted@len=%d' % (o.name, k), 'failed', o.kind,
@@ -145,7 +155,9 @@ def contract_unit(c, tier='quick', probe=False, world_setup=None):
                 jobs.append(dict(mode='replay', id='replay:%d' % i,
                                  target=c.target, params=np, args=args,
                                  requires=c.requires, ensures=c.ensures,
-                                 raises=c.raises, is_gen=is_gen))
+                                 raises=c.raises, is_gen=is_gen,
+                                 track_pulls=c.track_pulls,
+                                 seq_result=getattr(c, 'native_seq', False)))
             scope = getattr(c, 'native_scope', 2 if ctx.tier == 'quick'
                             else 3)
             if not probe:
@@ -153,6 +165,8 @@ def contract_unit(c, tier='quick', probe=False, world_setup=None):
                                  target=c.target, params=np,
                                  requires=c.requires, ensures=c.ensures,
                                  raises=c.raises, is_gen=is_gen, scope=scope,
+                                 track_pulls=c.track_pulls,
+                                 seq_result=getattr(c, 'native_seq', False),
                                  max_cases=4000 if ctx.tier == 'quick'
                                  else 60000))
         if jobs:
